@@ -24,9 +24,13 @@ SYNTH = {
     "VENDOR_ALG_HASH": {"kind": "prim", "size": 2, "signed": False, "valid": None, "subclass_of": "TPMI_ALG_HASH"},
     "TPMS_SYN_V": {"kind": "struct", "fields": [{"name": "slot", "type": "VENDOR_FW_SLOT"}, {"name": "alg", "type": "VENDOR_ALG_HASH"}, {"name": "inner", "type": "TPM2B_SYN_L0"}, {"name": "n", "type": "UINT8"}]},
     "TPM2B_SYN_V": {"kind": "tpm2b", "fields": [{"name": "size", "type": "UINT16"}, {"name": "v", "type": "TPMS_SYN_V"}]},
+    "VENDOR_MODE": {"kind": "prim", "size": 1, "signed": False, "valid": [[0, 2], [7, 7]], "enum": {"OFF": 0, "ON": 1, "AUTO": 2, "TEST": 7}, "base": "UINT8"},
+    "TPMS_SYN_F": {"kind": "struct", "fields": [{"name": "count", "type": "UINT8"}, {"name": "flags", "type": {"list": "TPMI_YES_NO"}}, {"name": "n", "type": "UINT16"},
+                                                {"name": "modes", "type": {"list": "VENDOR_MODE"}}, {"name": "tail", "type": "UINT8"}]},
+    "TPM2B_SYN_F": {"kind": "tpm2b", "fields": [{"name": "size", "type": "UINT16"}, {"name": "f", "type": "TPMS_SYN_F"}]},
     "TPMS_SYN_ROOT": {"kind": "struct", "fields": [{"name": "l4", "type": "TPM2B_SYN_L4"}, {"name": "u", "type": "TPM2B_SYN_U"}, {"name": "end", "type": "UINT8"}]},
 }
-ROOTS = ["TPM2B_SYN_L1", "TPM2B_SYN_L2", "TPM2B_SYN_L3", "TPM2B_SYN_L4", "TPM2B_SYN_U", "TPMS_SYN_ROOT", "TPMS_SYN_B", "TPMS_SYN_V", "TPM2B_SYN_V"]
+ROOTS = ["TPM2B_SYN_L1", "TPM2B_SYN_L2", "TPM2B_SYN_L3", "TPM2B_SYN_L4", "TPM2B_SYN_U", "TPMS_SYN_ROOT", "TPMS_SYN_B", "TPMS_SYN_V", "TPM2B_SYN_V", "TPMS_SYN_F", "TPM2B_SYN_F"]
 
 _REAL = None
 
